@@ -319,10 +319,40 @@ func ruleI1(c *Ctx) {
 	if fn == nil {
 		return
 	}
-	fi := c.fi(fn)
 	lists := map[string]bool{}
 	n := 0
-	allInstrs(fn, func(in ssa.Instruction) {
+	// errEnds: in function f, the error value ev ends f with that error — it is returned as it is (return g(...)), or
+	// returned on the edge where it is known non-nil
+	errEnds := func(f *ssa.Function, ev ssa.Value) bool {
+		ffi := c.fi(f)
+		for _, r := range c.returnsOf(f) {
+			rv := resultValues(r)
+			if len(rv) == 0 || rv[len(rv)-1] != ev {
+				continue
+			}
+			if _, isCall := ev.(*ssa.Call); isCall && r.Block() == ev.(*ssa.Call).Block() {
+				return true // return helper(...): whatever it reports is the result
+			}
+			for _, ft := range ffi.factsAt(r.Block()) {
+				if bo, ok := ft.Cond.(*ssa.BinOp); ok && bo.X == ev && isNilConst(bo.Y) && (bo.Op == token.NEQ) == ft.Truth {
+					return true
+				}
+			}
+		}
+		return false
+	}
+	errOf := func(call *ssa.Call) ssa.Value {
+		if call.Call.Signature().Results().Len() == 1 {
+			return call
+		}
+		for _, r := range *call.Referrers() {
+			if ex, ok := r.(*ssa.Extract); ok && ex.Index == call.Call.Signature().Results().Len()-1 {
+				return ex
+			}
+		}
+		return nil
+	}
+	walkHelpers(fn, 2, func(inFn *ssa.Function, in ssa.Instruction, top ssa.Instruction) {
 		call, ok := in.(*ssa.Call)
 		if !ok || !call.Call.IsInvoke() || call.Call.Method.Name() != "Graph" || !isNamed(call.Call.Value.Type(), modPath+"/storage", "Store") {
 			return
@@ -335,25 +365,13 @@ func ruleI1(c *Ctx) {
 			}
 		}
 		key := fmt.Sprintf("Statement.Init lookup #%d fails the statement", n)
-		// the non-nil edge of this call's error returns it
-		var errv *ssa.Extract
-		for _, r := range *call.Referrers() {
-			if ex, ok := r.(*ssa.Extract); ok && ex.Index == 1 {
-				errv = ex
-			}
-		}
+		// the non-nil edge of this call's error returns it — from the helper it sits in, and from Init at the call of that helper
 		okRet := false
-		if errv != nil {
-			for _, r := range c.returnsOf(fn) {
-				rv := resultValues(r)
-				if rv[0] != ssa.Value(errv) {
-					continue
-				}
-				for _, ft := range fi.factsAt(r.Block()) {
-					if bo, ok := ft.Cond.(*ssa.BinOp); ok && bo.X == ssa.Value(errv) && isNilConst(bo.Y) && (bo.Op == token.NEQ) == ft.Truth {
-						okRet = true
-					}
-				}
+		if ev := errOf(call); ev != nil && errEnds(inFn, ev) {
+			okRet = true
+			if inFn != fn {
+				tc, isCall := top.(*ssa.Call)
+				okRet = isCall && errOf(tc) != nil && errEnds(fn, errOf(tc))
 			}
 		}
 		c.check(okRet, key, in.Pos(), "err != nil returns that error immediately", "the error of the graph lookup at "+c.pos(in.Pos())+" does not end Init with that error: the statement goes on to execute against the graphs that did resolve")
@@ -377,14 +395,18 @@ func ruleP9c(c *Ctx) {
 	if fn == nil {
 		return
 	}
-	fi := c.fi(fn)
-	// the row loop: the innermost loop containing a call to processConstructClause
+	// the row loop: the innermost loop containing a call to processConstructClause — in Execute itself or in the
+	// same-package helper the template instantiation was moved to
 	var anchor ssa.Instruction
-	allInstrs(fn, func(in ssa.Instruction) {
-		if call, ok := in.(*ssa.Call); ok && call.Call.StaticCallee() != nil && call.Call.StaticCallee().Name() == "processConstructClause" {
+	walkHelpers(fn, 2, func(inFn *ssa.Function, in ssa.Instruction, _ ssa.Instruction) {
+		if call, ok := in.(*ssa.Call); ok && call.Call.StaticCallee() != nil && fnName(call.Call.StaticCallee()) == "processConstructClause" && inFn.Parent() == nil {
 			anchor = in
 		}
 	})
+	if anchor != nil {
+		fn = anchor.Parent()
+	}
+	fi := c.fi(fn)
 	if anchor == nil {
 		c.undecided("constructPlan row loop", fn.Pos(), "call to processConstructClause not found")
 		return
@@ -775,7 +797,7 @@ func ruleP4e(c *Ctx) {
 				// driver calls: mutations of the store are P9's business; reads do not drop rows
 				return
 			} else if f := cc.StaticCallee(); f != nil {
-				name = f.Name()
+				name = fnName(f)
 				// only operations of the planner, the table and the statement can drop or keep rows
 				pkg := ""
 				if f.Pkg != nil {
@@ -811,7 +833,7 @@ func ruleP4e(c *Ctx) {
 		fi := c.fi(as)
 		var fetch ssa.Instruction
 		allInstrs(as, func(in ssa.Instruction) {
-			if call, ok := in.(*ssa.Call); ok && call.Call.StaticCallee() != nil && call.Call.StaticCallee().Name() == "simpleFetch" {
+			if call, ok := in.(*ssa.Call); ok && call.Call.StaticCallee() != nil && fnName(call.Call.StaticCallee()) == "simpleFetch" {
 				fetch = in
 			}
 		})
@@ -1233,18 +1255,39 @@ func ruleL6c(c *Ctx, rels ...string) {
 					if f == tgt {
 						return
 					}
+					isCellChan := func(v ssa.Value) bool {
+						if ct, ok := v.(*ssa.ChangeType); ok {
+							v = ct.X
+						}
+						sc := v
+						if ld, ok := sc.(*ssa.UnOp); ok && ld.Op == token.MUL {
+							sc = ld.X
+						}
+						if sc == cell {
+							return true
+						}
+						if al, ok := cell.(*ssa.Alloc); ok {
+							if sv := singleStore(al); sv != nil && v == sv {
+								return true
+							}
+						}
+						return false
+					}
 					allInstrs(f, func(i2 ssa.Instruction) {
-						if sd, ok := i2.(*ssa.Send); ok {
-							sc := sd.Chan
-							if ld, ok := sc.(*ssa.UnOp); ok && ld.Op == token.MUL {
-								sc = ld.X
-							}
-							if sc == cell {
-								sends = true
-							}
-							if al, ok := cell.(*ssa.Alloc); ok {
-								if sv := singleStore(al); sv != nil && sd.Chan == sv {
-									sends = true
+						if sd, ok := i2.(*ssa.Send); ok && isCellChan(sd.Chan) {
+							sends = true
+						}
+						// or hands the channel to a same-package helper that sends on it
+						if cc := callCommon(i2); cc != nil {
+							if callee := helperCallee(f, cc); callee != nil {
+								for ai, a := range cc.Args {
+									if ai < len(callee.Params) && isCellChan(a) {
+										allInstrs(callee, func(i3 ssa.Instruction) {
+											if sd, ok := i3.(*ssa.Send); ok && isValueOfParam(sd.Chan, callee.Params[ai]) {
+												sends = true
+											}
+										})
+									}
 								}
 							}
 						}
